@@ -47,9 +47,11 @@
     touch the three custody accounts and the only hook transfer (AfterHouseWin: subaccount → owner, profit ≥ 0)
     happens right after the subaccount received liquidity + profit ≥ profit, so no later payment can fail or succeed
     because of a hook, and a hook's success (Unspend within Spent) does not depend on payments: the end-block is
-    modelled as core end-block, then the hook calls derived from the difference (participations that became paid in
-    this block, books in the order of the unsettled-resolved queue the order-book blocker walks, participations by
-    index), any failing hook = halt of the whole block (state unchanged), exactly as a panic in the Go blocker.
+    modelled as core end-block, then the hook calls derived from the difference between the core state after the bet
+    end-blocker (`obRef`, computed with the core's own `betEndBlock`; that blocker pays no participation) and the core
+    state after the block: participations that became paid, books in the order of the unsettled-resolved queue the
+    order-book blocker walks, participations by index; any failing hook = halt of the whole block (state unchanged),
+    exactly as a panic in the Go blocker.
   * Addresses: subaccount id k lives at `subAddr k = SUB_BASE + k` above the three module accounts (the real
     address is a hash that never collides with a module account).
   This file models the code as it is at /repo (the three `fix:` commits b540483, a24abac, 2ff3c82 included).
@@ -255,13 +257,18 @@ def bookHooks (pre post : Core.State) (uid : Nat) : List HookCall :=
   | some m => (newlyPaid pre post uid).flatMap (partHooks m)
   | none => []
 
-/-- the unsettled-resolved queue the order-book end-blocker walks = the queue after the bet end-blocker -/
-def obWalk (c : Core.State) : List Nat :=
+/-- the core state between the two end-blockers (after x/bet's, before x/orderbook's): the reference for "paid in
+    this block" (the bet end-blocker pays no participation) and the owner of the unsettled-resolved queue the
+    order-book end-blocker walks -/
+def obRef (c : Core.State) : Core.State :=
   match betEndBlock (c.mqueue.length + 1) c c.params.betBatch with
-  | some c1 => c1.obqueue.eraseDups
-  | none => []
+  | some c1 => c1
+  | none => c
 
-def endBlockHooks (pre post : Core.State) : List HookCall := (obWalk pre).flatMap (bookHooks pre post)
+/-- the books in the order the order-book end-blocker visits them -/
+def obWalk (c : Core.State) : List Nat := (obRef c).obqueue.eraseDups
+
+def endBlockHooks (pre post : Core.State) : List HookCall := (obWalk pre).flatMap (bookHooks (obRef pre) post)
 
 /-- one hook call; `none` = panic -/
 def applyHook (s : State) : HookCall → Option State
